@@ -23,15 +23,15 @@ class C08(HistoryProp):
     rule = ('histories of 6-25 operations on one engine: load(script, overwrite on/off) with scripts drawn per history '
             'from a family over p/1, p/2, q/1, q/2, r/0, ext/1, p_1/0, p_1/1, q_n/1, wide/10-11, predicates named like Python keywords (cuts, calls to predicates defined in other scripts or '
             'registered later, undefined predicates); loads that fail (syntax error appended to the source; NameError at '
-            'module level after the definitions); register_function with inferred, explicit and variadic arity (exact '
-            'and variadic for one name; only for keys without a definition); assert_fact; clear; calls opened and left suspended across later loads and registrations; after every step '
+            'module level after the definitions); register_function with inferred, explicit (also for a function with one optional parameter beyond that arity) and variadic arity - any negative number - (exact '
+            'and variadic for one name; for keys without a definition, or again - with other rows - for a key whose only definition is an earlier registration of the same kind, the newer function replacing the older); assert_fact; clear; calls opened and left suspended across later loads and registrations; after every step '
             'queries of every key at arities 0-3 with all-variable arguments and of unknown and API-reserved names. '
             'Model: facts key -> list, definitions key -> list (overwrite replaces by [new], combine appends), variadic '
             'name -> definition; predicted answers = R over that model (each definition its own cut scope); a failing '
             'load leaves the model unchanged; reserved names have no answers. Non-trivial = >= 3 loads touching one key, '
             'or overwrite after combine, or exact + variadic for one name, or a failing load between two successful '
             'ones; distinct = SHA-1 of the history.')
-    assumptions = ['CPython 3.12 of /venv', 'reference R as executable model', 're-registration over an existing definition is not generated (not stated by the property)',
+    assumptions = ['CPython 3.12 of /venv', 'reference R as executable model', 'registration over a definition loaded from a script is not generated (not stated by the property); a second registration of the same kind replaces the first (register_function: the name is made available with that function)',
                    'call with zero arguments (call/0 resolving to the variadic call/N builtin) is not generated']
     cases = {'quick': 1200, 'thorough': 25000}
     genome = {'quick': 500, 'thorough': 600}
@@ -83,6 +83,7 @@ class C08(HistoryProp):
             scripts.append(sw(list(scripts[src.n(len(scripts))])))
         defined = set()      # keys with a compiled or registered definition
         variadic = set()
+        reg_only = set()     # keys whose only definition is a registered Python function
         names = ['p', 'q', 'r', 'ext', 'p_1', 'q_n'] + sorted(kwnames)
         open_q = []
         qid = 0
@@ -115,16 +116,23 @@ class C08(HistoryProp):
                 if mode == 'ok':
                     for h, b in cl:
                         defined.add((h[1], len(h[2]) if h[0] == 'f' else 0))
+                        reg_only.discard((h[1], len(h[2]) if h[0] == 'f' else 0))
             elif k < 7:
                 name, n = src.pick([('ext', 1), ('ext', 2), ('q', 1), ('p', 2), ('r', 0), ('p', 1)])
-                style = src.pick(['inferred', 'explicit', 'variadic'])
+                style = src.pick(['inferred', 'explicit', 'variadic', 'explicit-optional'])
                 rows = [r * n for r in ROWS[:1 + src.n(4)]]
+                again = src.n(3) == 0
+                if again and src.n(2):
+                    rows = list(reversed(rows))[:1 + src.n(2)]       # the second registration answers differently
                 if style == 'variadic':
-                    if name not in variadic:
+                    # (a name is registered again only as what it was registered as before: the newer function replaces the older)
+                    if name not in variadic or again:
                         ops.append(['register', E, name, 'variadic', n, rows, [bool(src.n(2))]])
                         variadic.add(name)
-                elif (name, n) not in defined:
+                elif (name, n) not in defined or ((name, n) in reg_only and again):
                     ops.append(['register', E, name, style, n, rows, [bool(src.n(2))]])
+                    if (name, n) not in defined:
+                        reg_only.add((name, n))
                     defined.add((name, n))
             elif k < 9:
                 f = gfact(src, src.pick([('p', 1), ('q', 1), ('r', 0), ('p', 2), ('ext', 1)]))
@@ -133,6 +141,7 @@ class C08(HistoryProp):
                 ops.append(['clear', E])
                 defined = set()
                 variadic = set()
+                reg_only = set()
             elif k == 10 and defined and len(open_q) < 2:
                 # a call that stays suspended across later loads / registrations: it resolved when it was made
                 qid += 1
